@@ -284,15 +284,7 @@ def protocol_run(rng, S, t, n, exhaustive_subset=None, big_idents=None):
             NS, NE = S.NS, S.NE
             offs = {"group_pk": [0], "share": [2 * NS], "signer_pk": [NS], "vss_list": list(range(0, len(val), NE)), "commitment": [NS, NS + NE],
                     "commitment_list": [k_ + o for k_ in range(0, len(val), NS + 2 * NE) for o in (NS, NS + NE)], "signature": [0]}.get(ty, [])
-            sp = STRUCT.get(name)
-            if sp is None:
-                g_ = groups.GROUPS[{"ed25519": "ed25519", "ed448": "ed448", "ristretto255": "ristretto255", "p256": "p256", "secp256k1": "secp256k1"}[name]]
-                sp = []
-                for P_ in g_.structured_points():
-                    e_ = g_.C.encode_compressed(P_) if isinstance(g_, groups.WeierG) else bytes.fromhex(g_.enc(P_))
-                    if len(e_) == NE:
-                        sp.append(e_)
-                STRUCT[name] = sp
+            sp = struct_encodings(S)
             if offs and sp:
                 off = rng.choice(offs)
                 v4 = val[:off] + rng.choice(sp) + val[off + NE:]
@@ -357,6 +349,99 @@ def protocol_run(rng, S, t, n, exhaustive_subset=None, big_idents=None):
     return cs
 
 
+def struct_encodings(S):
+    """wire encodings of the group elements with a structured coordinate (groups.structured_points) for this suite"""
+    sp = STRUCT.get(S.name)
+    if sp is None:
+        g_ = groups.GROUPS[S.name]
+        sp = []
+        for P_ in g_.structured_points():
+            e_ = g_.C.encode_compressed(P_) if isinstance(g_, groups.WeierG) else bytes.fromhex(g_.enc(P_))
+            if len(e_) == S.NE:
+                sp.append(e_)
+        STRUCT[S.name] = sp
+    return sp
+
+
+def special_runs(rng, S):
+    """Runs outside the honest-configuration envelope (each expectation comes from the reference):
+      * key generation from an RNG whose bytes reduce to 0 modulo the order (all-zero tape, the order itself, a multiple of it):
+        the documented substitute key 1 must come with *its* public key;
+      * a coordinator configured with a smaller threshold than the one the key was split with: every share verifies on its own
+        (the Lagrange coefficients are those of the signer set) but the aggregate cannot verify, so nothing may be assembled;
+      * large thresholds (i^(t-1) beyond 64 bits for the larger identifiers) through split / derive_group_info / verify_split."""
+    name = S.name
+    T = "fr %s " % name
+    out = []
+    # --- zero-scalar key generation
+    L_ = S.order
+    for tape_k in (bytes(96), L_.to_bytes(S.RS_LEN, "little") + bytes(96 - S.RS_LEN if S.RS_LEN < 96 else 0), (L_ * rng.randrange(2, 1 << 60)).to_bytes(S.RS_LEN, "little") + bytes(16)):
+        if len(tape_k) < S.RS_LEN:
+            continue
+        sk = S.keygen(F.Tape(tape_k))
+        e = "OK %s %s" % (S.enc_group_sk(sk).hex(), S.enc_group_pk(S.G_mulgen(sk)).hex())
+        out.append(Case([T + "keygen " + tape_k.hex(), T + "gpk " + S.enc_group_sk(sk).hex()], [e, None], [name, "keygen-zero-scalar", name + ":keygen-zero-scalar"], "keygen with a zero draw"))
+    # --- group public keys with a structured coordinate (some are outside the prime-order subgroup: the reference decides)
+    sp = struct_encodings(S)
+    acc = [e_ for e_ in sp if S.dec_group_pk(e_) is not None]
+    rej = [e_ for e_ in sp if S.dec_group_pk(e_) is None]
+    for e_ in rng.sample(acc, min(8, len(acc))):
+        out.append(case1(T + "dec group_pk " + e_.hex(), "OK S " + e_.hex(), [name, "structured-point:accepted", name + ":structured-point:accepted"], "structured group key"))
+    for e_ in rng.sample(rej, min(4, len(rej))):
+        out.append(case1(T + "dec group_pk " + e_.hex(), "OK N", [name, "structured-point:rejected", name + ":structured-point:rejected"], "structured group key"))
+    # --- threshold mismatch
+    tc = rng.choice([2, 2, 3]); ts = tc + rng.choice([1, 1, 2]); n = ts + rng.randrange(0, 2)
+    msg = rb(rng, 20)
+    lines, exp = [], []
+    tape_k = rb(rng, 96)
+    sk = S.keygen(F.Tape(tape_k)); gpk = S.G_mulgen(sk)
+    gsk_b, gpk_b = S.enc_group_sk(sk), S.enc_group_pk(gpk)
+    tape_s = rb(rng, 64 * ts + 17)
+    shares, vss = S.trusted_split(F.Tape(tape_s), sk, ts, n)
+    shares_b = [S.enc_share(x) for x in shares]
+    lines.append(T + "split %s %s %d %d" % (tape_s.hex(), gsk_b.hex(), ts, n)); exp.append("OK %s %s" % (",".join(x.hex() for x in shares_b), S.enc_vss_list(vss).hex()))
+    spks = [(x["ident"], x["pk"]) for x in shares]
+    spks_b = [S.enc_signer_pk(p) for p in spks]
+    signers = sorted(rng.sample(range(n), tc))
+    nonces, comms = {}, {}
+    for i in signers:
+        tp = rb(rng, 64)
+        nonces[i], comms[i] = S.commit(F.Tape(tp), shares[i]["sk"], shares[i]["ident"])
+        lines.append(T + "commit %s %s" % (shares_b[i].hex(), tp.hex())); exp.append("OK %s %s" % (S.enc_nonce(nonces[i]).hex(), S.enc_commitment(comms[i]).hex()))
+    chosen = S.choose(tc, [comms[i] for i in signers])
+    if chosen is not None:
+        cl_b = S.enc_commitment_list(chosen)
+        zs = {}
+        for i in signers:
+            zs[i] = S.sign_share(shares[i], nonces[i], comms[i], msg, chosen)
+            lines.append(T + "sign %s %s %s %s %s" % (shares_b[i].hex(), S.enc_nonce(nonces[i]).hex(), S.enc_commitment(comms[i]).hex(), hx(msg), cl_b.hex()))
+            exp.append(("OK S " + S.enc_sig_share((shares[i]["ident"], zs[i])).hex()) if zs[i] is not None else "OK N")
+        if all(z is not None for z in zs.values()):
+            for i in signers:
+                ok = S.verify_share(spks[i], shares[i]["ident"], zs[i], chosen, gpk, msg)
+                lines.append(T + "verify_share %s %s %s %s %s" % (spks_b[i].hex(), S.enc_sig_share((shares[i]["ident"], zs[i])).hex(), cl_b.hex(), gpk_b.hex(), hx(msg)))
+                exp.append("OK " + ("T" if ok else "F"))
+            sig = S.assemble(tc, gpk, [(shares[i]["ident"], zs[i]) for i in signers], chosen, spks, msg)
+            lines.append(T + "assemble %d %s %s %s %s %s" % (tc, gpk_b.hex(), ",".join(S.enc_sig_share((shares[i]["ident"], zs[i])).hex() for i in signers), cl_b.hex(),
+                                                            ",".join(x.hex() for x in spks_b), hx(msg)))
+            exp.append("OK N" if sig is None else "ORACLE-INCONSISTENT: reference assembles a signature below the split threshold")
+            out.append(Case(lines, exp, [name, "threshold-mismatch", name + ":threshold-mismatch"], "coordinator threshold below the split threshold"))
+    # --- large thresholds
+    t, n = rng.choice([(17, 17), (17, 18), (10, 140)] if name != "ed448" else [(17, 17)])
+    tape_s = rb(rng, 64 * t + 17)
+    sk = S.keygen(F.Tape(rb(rng, 96)))
+    shares, vss = S.trusted_split(F.Tape(tape_s), sk, t, n)
+    vss_b = S.enc_vss_list(vss)
+    spks_b = [S.enc_signer_pk((x["ident"], x["pk"])) for x in shares]
+    lines = [T + "split %s %s %d %d" % (tape_s.hex(), S.enc_group_sk(sk).hex(), t, n),
+             T + "derive_group_info %d %s" % (n, vss_b.hex())]
+    exp = ["OK %s %s" % (",".join(S.enc_share(x).hex() for x in shares), vss_b.hex()), "OK %s %s" % (",".join(x.hex() for x in spks_b), S.enc_group_pk(S.G_mulgen(sk)).hex())]
+    for i in (0, n // 2, n - 2, n - 1):
+        lines.append(T + "verify_split %s %s" % (S.enc_share(shares[i]).hex(), vss_b.hex())); exp.append("OK T")
+    out.append(Case(lines, exp, [name, "large-threshold", name + ":large-threshold"], "large threshold"))
+    return out
+
+
 def gen(rng, shard, nshards, runs_per_suite, exhaustive_small):
     cases = []
     idx = 0
@@ -381,6 +466,9 @@ def gen(rng, shard, nshards, runs_per_suite, exhaustive_small):
             t = rng.choice([2, 2, 3, 3, 4, 5, 6])
             n = rng.randrange(t, 10)
             cases.append(protocol_run(rng, S, t, n))
+        idx += 1
+        if idx % nshards == shard:
+            cases.extend(special_runs(rng, S))
         # groups whose identifiers exceed one byte / two bytes boundaries
         for ids, ntot in (([255, 256], 300), ([1, 256, 300], 300), ([255, 256, 257, 511, 512], 600), ([256, 65535], 65535), ([65534, 65535, 2], 65535)):
             idx += 1
@@ -450,6 +538,7 @@ def main(argv):
                 "share-wrong-signer", "share-ident-altered", "other-message", "wire-roundtrip", "rfc8032-interop", "signer-not-in-list", "other-group-key", "identifiers>255", "point-in-other-valid-format", "sign:own-entry-hiding-replaced", "sign:own-entry-binding-replaced",
                 "sign:own-entry-both-replaced", "sign:other-entry-hiding-replaced"]
         req += [s + ":structured-point:accepted" for s in F.SUITES]
+        req += [s + ":threshold-mismatch" for s in F.SUITES] + [s + ":large-threshold" for s in F.SUITES] + [s + ":keygen-zero-scalar" for s in F.SUITES]
         rep.require(*req)
     except Inconclusive as e:
         rep.incon.append(str(e))
